@@ -57,9 +57,9 @@ contract(f"{LL}.raw_link_layer:RawLinkLayer.receive",
              _ONE,
              "implies(len(ghost('callbacks')) == 1, ghost('callbacks')[0][1] == ghost('rx')[0][14:])",
              "implies(len(ghost('rx')) == 1, (len(ghost('callbacks')) == 1) == (ghost('rx')[0][0:6] == self.mac_address or (ghost('rx')[0][0:6] == b'\\xff\\xff\\xff\\xff\\xff\\xff' and ghost('rx')[0][6:12] != self.mac_address)))"]}},
-         ensures={"loop_ends_only_when_the_socket_is_closed": "True"},
+         ensures={"loop_ends_only_when_the_socket_is_closed": "len(ghost('rx')) == 0 and len(ghost('callbacks')) == 0"},
          note="no `raises`/`may_raise`: every path on which an exception leaves receive() is a failed obligation", **S)
 contract(f"{LL}.cv2x_link_layer:PythonCV2XLinkLayer.callback_handler_loop",
          shapes={"self": T.obj(f"{LL}.cv2x_link_layer:PythonCV2XLinkLayer", receive_callback=T.opaque("rx_callback")), "callback_queue": T.opaque("queue")},
          loops={"while#0": {"invariant": [_ONE, "implies(len(ghost('rx')) == 1, len(ghost('callbacks')) == 1 and ghost('callbacks')[0][1] == ghost('rx')[0])"]}},
-         ensures={"loop_ends_only_on_the_stop_marker": "True"}, **S)
+         ensures={"loop_ends_only_on_the_stop_marker_never_on_a_received_frame": "len(ghost('rx')) == 0 and len(ghost('callbacks')) == 0"}, **S)
